@@ -47,6 +47,12 @@ def gen(tier, rng):
         if rng.random() < 0.5:
             sched = sg.prefill(mn) + sched
         cases.append(sg.line(kind, mx, mn, 300 if timed else 60000, senders, sends, faults, sched))
+    # the configuration itself: `min_idle` and `max_size` are stored as given, whatever the order of the two calls
+    for a, b in [(0, 10), (12, 16), (3, 1), (16, 12), (1, 1), (200, 100)]:
+        cases.append(f"ctor\tpoolcfg\t{a}\t{b}")
+    # a connection whose send timed out (the reply came after the deadline) is not healthy: it is closed, not parked
+    for t in {"quick": [300], "search": [200, 300], "thorough": [200, 300, 400]}[tier]:
+        cases.append(f"late\t{t}")
     return cases
 
 
@@ -57,6 +63,8 @@ def timing_dependent(case):
 
 def nontrivial(case):
     f = case.split("\t")
+    if f[0] != "sched":
+        return True
     return f[7] != "-" or (f[3] != "0" and "m" in f[8].split(",")) or "W" in f[8]
 
 
@@ -65,9 +73,12 @@ def shrinkable(case):
 
 
 def distribution(cases):
+    other = [c for c in cases if not c.startswith("sched")]
+    cases = [c for c in cases if c.startswith("sched")]
     d = c07.distribution(cases)
     d["timed"] = sum("W" in c.split("\t")[8].split(",") for c in cases)
     d["min_idle>max_size"] = sum(int(c.split("\t")[3]) > int(c.split("\t")[2]) for c in cases)
+    d["pool_config_and_late_reply"] = len(other)
     return d
 
 
